@@ -111,6 +111,20 @@ FaultClasses(body, cfg) ==
                      THEN {"cap4as"} ELSE {})
     IN fixed \cup struct \cup caps
 
+(* structural fault classes only (what a decoder can complain about without a configuration) *)
+StructFaults(body) ==
+  IF ~HasFixed(body) THEN {"short"}
+  ELSE IF ~OptLenConsistent(body) THEN {"optlen"}
+  ELSE (IF ListEmpty(body) THEN {"emptylist"} ELSE {})
+       \cup (IF ListTruncated(body) THEN {"trunc"} ELSE {})
+       \cup (IF ListUnknownParam(body) THEN {"unknownparam"} ELSE {})
+
+(* per capabilities parameter, the capabilities it carries *)
+ParamCapsOf(p) == LET t == TLVs(p.val).items IN [j \in 1..Len(t) |-> Cap(t[j].type, t[j].val)]
+ParamsCaps(body) ==
+  LET ps == SelectSeq(Params(body).items, LAMBDA p : p.type = ParamCaps) IN
+  [k \in 1..Len(ps) |-> ParamCapsOf(ps[k])]
+
 (* An OPEN that must be accepted. *)
 Acceptable(body, cfg) == FaultClasses(body, cfg) = {}
 
